@@ -97,45 +97,38 @@ Definition runes (bs : list byte) : list N := runes_fuel (length bs) bs.
 Definition utf8_ok (bs : list byte) : bool :=
   let rs := runes bs in forallb is_scalar rs && bytes_eqb (concat (map utf8 rs)) bs.
 
-Definition char_readable (r : N) : bool :=
-  is_scalar r && negb (r =? 0)%N &&
-  match special_char r with
-  | Some _ => true
-  | None => if (r <? 32)%N then true
-            else if (r <? 128)%N then match act T03 MChar r with ASkip => true | _ => false end
-            else true
-  end.
+(* characters: every Unicode scalar (a rune that is no scalar - a surrogate - is not a character of the property).
+   The NUL character is printed by name (repo_fixes C03-12), the characters the reader's character mode rejects
+   after #\ by code (repo_fixes C03-13). *)
+Definition char_readable (r : N) : bool := is_scalar r.
 
-Definition pipe_ok_byte (b : byte) : bool :=       (* bytes a |name| may hold *)
+Definition pipe_ok_byte (b : byte) : bool :=       (* bytes a |name| holds as they are; the others are escaped *)
   negb (b =? 124)%N && negb (b =? 92)%N && ((32 <=? b)%N || (b =? 9)%N || (b =? 10)%N || (b =? 13)%N).
 Definition token_byte (b : byte) : bool :=          (* bytes the reader keeps inside a token *)
   match act T03 MToken b with ASkip | ATokenStart => true | _ => false end.
 Definition token_first (b : byte) : bool :=
   match act T03 MValue b with ATokenStart => true | _ => false end.
-Definition numeric_like (buf : list byte) : bool :=
-  int_rx buf || float_rx None buf || float_rx (Some 101%N) buf || float_rx (Some 100%N) buf ||
-  float_rx (Some 115%N) buf || float_rx (Some 102%N) buf || float_rx (Some 108%N) buf || ratio_rx buf.
-Definition bare_ok (name : list byte) : bool :=      (* a name printed without |...| reads back as that symbol *)
-  match name with
-  | [] => false
-  | b :: r => token_first b && forallb token_byte r
-  end && negb (numeric_like (map lower name)) && negb (is_t name) && negb (is_nil_tok name) &&
-  negb (bytes_eqb name [46%N]).
-(* inl: the symbol sits inside a list that createTree renders ( *print-pretty* t) *)
-Definition sym_ok (c : pcfg) (inl : bool) (name : list byte) : bool :=
-  forallb (fun b => (b <? 128)%N) name &&
-  match name with
-  | [] => negb inl
-  | 58%N :: _ => negb (existsb need_pipe name) && bare_ok name
-  | _ => if existsb need_pipe name then forallb pipe_ok_byte name && negb inl else bare_ok name
-  end.
+(* Symbols.  Symbol.needPipes (repo_fixes C03-3 ... C03-11) puts between bars every name the reader would not give
+   back as that symbol when written bare: a byte the token modes reject, the spelling of a number, the lone dot,
+   nil in any case, a leading @; between bars | \ and control bytes are escaped (C03-5); keywords follow the
+   same rule (C03-6); the pretty printer writes symbols like the flat one (C03-4); the reader takes bytes above
+   0x7f as token constituents (C03-8).  What is left of the guard:
+   - names are byte strings;
+   - the model's caseName is the ASCII one: a name with bytes above 0x7f is inside the guard when *print-case* is
+     nil (no conversion); with a conversion in force only ASCII names are (strings.ToUpper / ToLower on cased
+     non-ASCII letters are outside the model);
+   - the symbol named t (or T) is printed like the constant t: known finding C03-symbol-named-t, pinned by
+     slip's own tests. *)
+Definition case_is_none (c : pcfg) : bool := match p_case c with CNone => true | _ => false end.
+Definition sym_ok (c : pcfg) (name : list byte) : bool :=
+  forallb (fun b => (b <? 256)%N) name && (forallb (fun b => (b <? 128)%N) name || case_is_none c) && negb (is_t name).
 
 Definition float_ok (k : fkind) (txt : list byte) : bool :=
   match resolve_token txt with OFlt k' _ => fkind_eqb k k' | _ => false end &&
   match txt with [] => false | b :: r => token_first b && forallb token_byte r end &&
   negb (is_t txt) && negb (is_nil_tok txt).
 
-Definition atom_ok (c : pcfg) (inl : bool) (x : obj) : bool :=
+Definition atom_ok (c : pcfg) (x : obj) : bool :=
   match x with
   | ONil | OTrue => true
   | OInt b z => Bool.eqb b (negb (in64 z))
@@ -143,21 +136,20 @@ Definition atom_ok (c : pcfg) (inl : bool) (x : obj) : bool :=
   | OFlt k txt => float_ok k txt
   | OStr bs => if p_readably c then utf8_ok bs else forallb plain_string_byte bs
   | OChr r => char_readable r
-  | OSym s => sym_ok c inl s
+  | OSym s => sym_ok c s
   | _ => false
   end.
 
-(* dom c inl x: x is an object of the property (well formed) that the unchanged printer and reader
-   carry round; inl is true below a list when *print-pretty* is on *)
-Fixpoint dom (c : pcfg) (inl : bool) (x : obj) : bool :=
-  let fix all (l : list obj) : bool := match l with [] => true | e :: l' => dom c (p_pretty c) e && all l' end in
+(* dom c x: x is an object of the property (well formed) that the printer and the reader carry round *)
+Fixpoint dom (c : pcfg) (x : obj) : bool :=
+  let fix all (l : list obj) : bool := match l with [] => true | e :: l' => dom c e && all l' end in
   match x with
   | OList xs => nonempty xs && all xs
-  | ODot xs tl => nonempty xs && all xs && is_atom tl && atom_ok c (p_pretty c) tl &&
+  | ODot xs tl => nonempty xs && all xs && is_atom tl && atom_ok c tl &&
                   match tl with ONil => false | _ => true end
   | OVec xs => p_array c && all xs
-  | OArr rank rows => p_array c && (p_base c =? 10)%N && negb (p_radix c) && (2 <=? rank)%nat && (rank <=? 1024)%nat &&
+  | OArr rank rows => p_array c && (2 <=? rank)%nat && (rank <=? 1024)%nat &&
                       arr_dims_ok rank rows && arr_check (arr_dims rank rows) rows && all rows
-  | _ => atom_ok c inl x
+  | _ => atom_ok c x
   end.
-Definition in_domain (c : pcfg) (x : obj) : bool := readable_cfg c && dom c false x.
+Definition in_domain (c : pcfg) (x : obj) : bool := readable_cfg c && dom c x.
